@@ -123,8 +123,24 @@ def gen_step(rng, d, obj, objs, budget, first=None):
             lmin, lmax = first
     r = rng.random()
     npts = 0 if r < 0.04 else 6
-    return dict(obj=obj, lmin=lmin, lmax=lmax, pts=gen_pts(rng, d, o['a'], o['b'], npts), grid_eval=rng.random() < 0.5,
-                want_pw=rng.random() < 0.35, probe_first=rng.random() < 0.5, pts_array=rng.random() < 0.25, np_levels=rng.random() < 0.15)
+    st = dict(obj=obj, lmin=lmin, lmax=lmax, pts=gen_pts(rng, d, o['a'], o['b'], npts), grid_eval=rng.random() < 0.5,
+              want_pw=rng.random() < 0.35, probe_first=rng.random() < 0.5, np_levels=rng.random() < 0.15,
+              pts_form=rng.choice(['tuples'] * 8 + ['ndarray'] * 4 + ['fortran'] * 2 + ['view'] * 3 + ['float32'] * 3))
+    st['pts_array'] = st['pts_form'] != 'tuples'
+    # public observer calls between the stop and the observations (axis e)
+    if rng.random() < 0.6:
+        st['observers'] = [rng.randrange(0, 7) for _ in range(rng.choice([1, 2, 3]))]
+    # a level vector outside the scheme: anisotropic, large, level 0 (axis i)
+    if rng.random() < 0.5:
+        for _ in range(10):
+            lv = [rng.randrange(0, 8 if d <= 2 else 4) for _ in range(d)]
+            n = 1
+            for x in lv:
+                n *= 2 ** x + 1
+            if n <= 3000:
+                st['extra_lv'] = lv
+                break
+    return st
 
 
 def gen_case(rng, tier):
@@ -135,14 +151,16 @@ def gen_case(rng, tier):
     budget = {1: 3000, 2: 2500, 3: 2500, 4: 2500, 5: 1500}[d] * (1 if tier == 'quick' else 3)
     a, b = gen_box(rng, d, far)
     boundary = rng.random() < (0.3 if far else 0.5)
-    objs = [dict(a=a, b=b, boundary=boundary, integrator='old' if rng.random() < 0.15 else None, ab_lists=rng.random() < 0.15)]
+    ab_form = rng.choice(['array'] * 11 + ['list'] * 3 + ['int'] * 3 + ['view'] * 3)
+    objs = [dict(a=a, b=b, boundary=boundary, integrator='old' if rng.random() < 0.15 else None, ab_form=ab_form, ab_lists=ab_form == 'list')]
     if rng.random() < 0.3:
         # a second object triple in the same process: other boundary flag on the same box, or another box with the same flag
         if rng.random() < 0.5:
-            objs.append(dict(a=a, b=b, boundary=not boundary, integrator=None))
+            # ... built on the SAME bound objects (axis b) half of the time
+            objs.append(dict(a=a, b=b, boundary=not boundary, integrator=None, ab_form=ab_form, ab_lists=ab_form == 'list', share_ab=rng.random() < 0.7))
         else:
             a2, b2 = gen_box(rng, d, False)
-            objs.append(dict(a=a2, b=b2, boundary=boundary, integrator=None))
+            objs.append(dict(a=a2, b=b2, boundary=boundary, integrator=None, ab_form='array'))
     steps = [gen_step(rng, d, 0, objs, budget)]
     if far and rng.random() < 0.7:
         # levels at which the mesh width falls below np.isclose's tolerance 1e-8 + 1e-5 * |bound| (known finding when boundary is off)
@@ -156,12 +174,18 @@ def gen_case(rng, tier):
     if rng.random() < 0.65:
         for _ in range(rng.choice([1, 1, 2])):
             obj = rng.randrange(len(objs))
-            steps.append(gen_step(rng, d, obj, objs, budget, first=(steps[0]['lmin'], steps[0]['lmax'])))
+            st = gen_step(rng, d, obj, objs, budget, first=(steps[0]['lmin'], steps[0]['lmax']))
+            if steps[-1]['obj'] == obj and rng.random() < 0.3:
+                # the very same points object is handed over again (axis b)
+                st.update(pts=steps[-1]['pts'], pts_form=steps[-1]['pts_form'], pts_array=steps[-1]['pts_array'], pts_same=True)
+            steps.append(st)
     lmin, lmax = steps[0]['lmin'], steps[0]['lmax']
     fss = [gen_fs(rng, d, lmin, lmax, a, b, boundary)]
     if rng.random() < 0.2:
         fss.append(gen_fs(rng, d, lmin, lmax, a, b, boundary))       # vector-valued function (output_length 2)
-    return dict(d=d, objs=objs, fss=fss, ref=rng.random() < 0.25, steps=steps)
+    # magnitudes (axis d): the function values (and the reference) scaled by a power of two, 2^-60 .. 2^30
+    return dict(d=d, objs=objs, fss=fss, ref=rng.random() < 0.25, steps=steps, fscale=rng.choice([0] * 6 + [-60, -20, 10, 30]),
+                sibling=rng.random() < 0.12)
 
 
 def big_cases(rng):
@@ -199,7 +223,7 @@ def big_cases(rng):
 
 
 # ------------------------------------------------------------------------------------------------------- implementation
-def make_function(fss, a, b):
+def make_function(fss, a, b, scale=1.0):
     import numpy as np
     from sparseSpACE.Function import Function
     fa = [float(x) for x in a]; fb = [float(x) for x in b]
@@ -228,38 +252,132 @@ def make_function(fss, a, b):
 
         def eval(self, x):
             if len(fss) == 1:
-                return one(fss[0], x)
-            return np.array([one(fs, x) for fs in fss])
+                return scale * one(fss[0], x)
+            return np.array([scale * one(fs, x) for fs in fss])
 
         def comps(self, x):
-            return [one(fs, x) for fs in fss]
+            return [scale * one(fs, x) for fs in fss]
     return F()
 
 
 def ref_solution(c):
-    return [float(3 + k) / 4 for k in range(len(c['fss']))]
+    return [fscale(c) * float(3 + k) / 4 for k in range(len(c['fss']))]
+
+
+def fscale(c):
+    return 2.0 ** c.get('fscale', 0)
+
+
+class ArgWatch:
+    """axis (a): every object handed to the library is snapshotted at hand-over and compared after the calls"""
+    def __init__(self):
+        self.items = []
+
+    def add(self, name, obj):
+        import copy
+        import numpy as np
+        snap = np.array(obj, copy=True) if isinstance(obj, np.ndarray) else copy.deepcopy(obj)
+        self.items.append((name, obj, snap))
+        return obj
+
+    def mutated(self):
+        import numpy as np
+        bad = []
+        for name, obj, snap in self.items:
+            if isinstance(obj, np.ndarray):
+                same = obj.shape == snap.shape and obj.dtype == snap.dtype and np.array_equal(obj, snap)
+            else:
+                same = obj == snap
+            if not same:
+                bad.append(name)
+        return sorted(set(bad))
+
+
+def make_bounds(o, np, parents):
+    """axis (b): the box as fresh float arrays, Python lists, integer arrays, or views into one parent array"""
+    a = [float(x) for x in o['a']]; b = [float(x) for x in o['b']]
+    form = o.get('ab_form') or ('list' if o.get('ab_lists') else 'array')
+    if form == 'list':
+        return a, b
+    if form == 'int' and all(x == int(x) for x in a + b):
+        return np.array([int(x) for x in a]), np.array([int(x) for x in b])
+    if form == 'view':
+        parent = np.zeros((2, 2 * len(a) + 1))
+        parent[0, 1::2] = a; parent[1, 1::2] = b
+        parents.append(parent)
+        return parent[0, 1::2], parent[1, 1::2]
+    return np.array(a), np.array(b)
+
+
+def make_points(st, d, np, far):
+    """axis (b): evaluation points as list of tuples, C / Fortran ordered arrays, a strided view of a parent, float32"""
+    pts = [tuple(float(x) for x in p) for p in st['pts']]
+    form = st.get('pts_form') or ('ndarray' if st.get('pts_array') else 'tuples')
+    if form == 'tuples' or not pts:
+        return pts if form == 'tuples' else np.array(pts).reshape((len(pts), d))
+    arr = np.array(pts).reshape((len(pts), d))
+    if form == 'fortran':
+        return np.asfortranarray(arr)
+    if form == 'view':
+        parent = np.full((2 * len(pts), d + 2), 7.5)
+        parent[::2, 1:d + 1] = arr
+        return parent[::2, 1:d + 1]
+    if form == 'float32' and not far and np.array_equal(arr.astype(np.float32).astype(np.float64), arr):
+        return arr.astype(np.float32)
+    return arr
 
 
 def impl_run(c):
     """runs the whole history; returns one result dict per step (floats, converted to exact rationals by the caller)"""
     import numpy as np
     from sparseSpACE.StandardCombi import StandardCombi
-    from sparseSpACE.Grid import TrapezoidalGrid
+    from sparseSpACE.Grid import TrapezoidalGrid, SimpsonGrid
     from sparseSpACE.GridOperation import Integration
     trip = []
-    for o in c['objs']:
-        a = [float(x) for x in o['a']]; b = [float(x) for x in o['b']]
-        if not o.get('ab_lists'):
-            a = np.array(a); b = np.array(b)
-        f = make_function(c['fss'], o['a'], o['b'])
+    watch = ArgWatch()
+    parents = []
+    shared = {}
+    for n, o in enumerate(c['objs']):
+        key = (str(o['a']), str(o['b']), o.get('ab_form'))
+        if o.get('share_ab') and key in shared:
+            a, b = shared[key]                      # axis (b): the SAME bound objects handed to a second object triple
+        else:
+            a, b = make_bounds(o, np, parents)
+            shared[key] = (a, b)
+            watch.add('a of object %d' % n, a); watch.add('b of object %d' % n, b)
+        f = make_function(c['fss'], o['a'], o['b'], fscale(c))
         grid = TrapezoidalGrid(a=a, b=b, boundary=o['boundary'], integrator=o.get('integrator'))
-        ref = np.array(ref_solution(c)) if c.get('ref') else None
+        ref = watch.add('reference_solution of object %d' % n, np.array(ref_solution(c))) if c.get('ref') else None
         op = Integration(f=f, grid=grid, dim=c['d'], reference_solution=ref)
-        trip.append((StandardCombi(a, b, operation=op, print_output=False), grid, f))
+        trip.append((StandardCombi(a, b, operation=op, print_output=False), grid, f, a, b))
+    sibling = None
+    if c.get('sibling'):
+        # axis (g): an object of a SIBLING grid class (same Grid1d base) alive and working in the same process
+        try:
+            a, b = trip[0][3], trip[0][4]
+            gs = SimpsonGrid(a=a, b=b, boundary=True)
+            sibling = StandardCombi(a, b, operation=Integration(f=make_function(c['fss'], c['objs'][0]['a'], c['objs'][0]['b'], 1.0), grid=gs, dim=c['d']))
+        except BaseException:
+            sibling = None
     out = []
-    for st in c['steps']:
-        sc, grid, f = trip[st['obj']]
-        out.append(impl_request(c, st, sc, grid, f))
+    last_req = {}
+    for k, st in enumerate(c['steps']):
+        sc, grid, f, a, b = trip[st['obj']]
+        if sibling is not None:
+            try:
+                sibling.perform_operation(1, 2)
+                sibling([tuple(float(x) for x in (c['objs'][0]['a'][q] + c['objs'][0]['b'][q]) / 2 for q in range(c['d']))])
+            except BaseException:
+                pass
+        far = any(abs(float(x)) >= 100 for x in c['objs'][st['obj']]['a'])
+        if st.get('pts_same') and st['obj'] in last_req and last_req[st['obj']][0] == st['pts']:
+            req = last_req[st['obj']][1]             # axis (b): the same points object as in the previous request
+        else:
+            req = watch.add('evaluation points of step %d' % k, make_points(st, c['d'], np, far))
+        last_req[st['obj']] = (st['pts'], req)
+        r = impl_request(c, st, sc, grid, f, req, watch, k)
+        r['mutated'] = watch.mutated()
+        out.append(r)
     return out
 
 
@@ -267,40 +385,86 @@ def _f(x):
     return float(x)
 
 
-def impl_request(c, st, sc, grid, f):
+SENTINEL = -7.25e300
+
+
+def impl_request(c, st, sc, grid, f, req, watch, k):
     import numpy as np
     nout = len(c['fss'])
+    d = c['d']
     if st.get('np_levels'):
         scheme, err, result = sc.perform_operation(np.int64(st['lmin']), np.int64(st['lmax']))
     else:
         scheme, err, result = sc.perform_operation(st['lmin'], st['lmax'])
     total_points = int(sc.get_total_num_points())
     sch = [[[int(x) for x in g.levelvector], _f(g.coefficient)] for g in scheme]
+    integral = [_f(x) for x in np.atleast_1d(result)]
+    pts = [tuple(float(x) for x in p) for p in st['pts']]
+    returned = []           # axis (c): every array / list a call returned; overwritten with a sentinel at the end of the step
+
+    def keep(x):
+        returned.append(x)
+        return x
+    keep(result)
+
+    # axis (e): public observer calls on the live object between the stop and the observations (results discarded here)
+    observers = 0
+    for code in st.get('observers', []):
+        try:
+            if code == 0:
+                sc.get_total_num_points()
+            elif code == 1:
+                sc.check_combi_scheme()
+            elif code == 2 and pts:
+                sc(pts[:2])
+            elif code == 3 and st.get('extra_lv'):
+                sc.get_points_and_weights_component_grid(watch.add('level vector of an observer call in step %d' % k, np.array(st['extra_lv'])))
+            elif code == 4 and pts:
+                sc.interpolate_grid([[p[q] for p in pts[:2]] for q in range(d)])
+            elif code == 5:
+                sc.get_points_and_weights()
+            elif code == 6 and scheme:
+                # (before the first setCurrentArea - e.g. after an empty scheme, lmax < lmin - these two raise AttributeError 'start':
+                # level_to_num_points_1d reads the current area; documented as excluded)
+                grid.levelToNumPoints([1] * d); sc.get_num_points_component_grid([2] * d, False)
+            observers += 1
+        except BaseException as e:
+            return dict(observer_exception='%s in observer %d: %s' % (type(e).__name__, code, str(e)[:200]))
 
     attrs = {}
 
     def probe():
         comps = []
         for g in scheme:
-            npnts = [int(x) for x in grid.levelToNumPoints(g.levelvector)]
+            npnts = [int(x) for x in keep(grid.levelToNumPoints(g.levelvector))]
             num = int(sc.get_num_points_component_grid(g.levelvector, False))
-            only_pts = [tuple(_f(x) for x in p) for p in sc.get_points_component_grid(g.levelvector)]
-            pts, w = sc.get_points_and_weights_component_grid(g.levelvector)
-            comps.append([npnts, num, [tuple(_f(x) for x in p) for p in pts], [_f(x) for x in w], only_pts])
+            only_pts = [tuple(_f(x) for x in p) for p in keep(sc.get_points_component_grid(g.levelvector))]
+            pts_, w = sc.get_points_and_weights_component_grid(g.levelvector)
+            keep(pts_); keep(w)
+            comps.append([npnts, num, [tuple(_f(x) for x in p) for p in pts_], [_f(x) for x in w], only_pts])
             # the state Grid1d.set_current_area left in the 1D grid objects (parameters of the source-derived model)
-            for k, g1 in enumerate(grid.grids):
-                key = '%d:%d' % (k, int(g.levelvector[k]))
+            for q, g1 in enumerate(grid.grids):
+                key = '%d:%d' % (q, int(g.levelvector[q]))
                 if key not in attrs and len(attrs) < 24:
                     attrs[key] = [int(g1.num_points), int(g1.num_points_with_boundary), int(g1.lowerBorder), int(g1.upperBorder),
                                   None if g1.spacing is None else _f(g1.spacing), [_f(x) for x in g1.coords], [_f(x) for x in g1.weights],
-                                  int(g1.level_to_num_points_1d(int(g.levelvector[k])))]
+                                  int(g1.level_to_num_points_1d(int(g.levelvector[q])))]
         return comps
     comps = probe() if st['probe_first'] else None
-    pts = [tuple(float(x) for x in p) for p in st['pts']]
-    req = np.array(pts).reshape((len(pts), c['d'])) if st.get('pts_array') else pts
-    vals = [[_f(x) for x in v] for v in sc(req)]
+    vals_arr = keep(sc(req))
+    vals = [[_f(x) for x in v] for v in vals_arr]
+    # axis (b): an equal FRESH copy of the points object must give the identical answer
+    fresh = np.array(req, copy=True) if isinstance(req, np.ndarray) else [tuple(p) for p in req]
+    vals_fresh = [[_f(x) for x in v] for v in sc(fresh)]
     if comps is None:
         comps = probe()
+    # axis (i): a level vector that is NOT in the scheme (anisotropic, large, level 0), given as the caller's own array
+    extra = None
+    if st.get('extra_lv'):
+        lv = watch.add('level vector of the extra probe in step %d' % k, np.array(st['extra_lv']))
+        ep, ew = sc.get_points_and_weights_component_grid(lv)
+        extra = [[int(x) for x in grid.levelToNumPoints(lv)], int(sc.get_num_points_component_grid(lv, False)),
+                 [tuple(_f(x) for x in p) for p in ep], [_f(x) for x in ew]]
     # all sparse grid points: interpolation must reproduce f there (oracle)
     allp = sorted(set(p for comp in comps for p in comp[2]))
     nodal_all = len(allp)
@@ -311,31 +475,61 @@ def impl_request(c, st, sc, grid, f):
     if allp:
         iv = sc(allp)
         nodal = [[p, [_f(x) for x in i], [float(x) for x in f.comps(p)]] for p, i in zip(allp, iv)]
-    # tensor-grid request must agree with point-wise request
+    # tensor-grid request must agree with point-wise request; coordinates in the order given (unsorted, with duplicates)
     gridvals = None
     if st['grid_eval'] and pts:
-        coords = [sorted(set(p[k] for p in pts)) for k in range(c['d'])]
-        gv = sc.interpolate_grid(coords)
+        m = 6 if d <= 3 else 3
+        coords = watch.add('grid coordinates of step %d' % k, [[p[q] for p in pts[:m]] for q in range(d)])
+        gv = keep(sc.interpolate_grid(coords))
         pv = sc(list(itertools.product(*coords)))
         gridvals = [[[_f(y) for y in x] for x in gv], [[_f(y) for y in x] for x in pv]]
     pw_pts, pw_w = sc.get_points_and_weights()
+    keep(pw_pts); keep(pw_w)
     pw_len = [len(pw_pts), len(pw_w)]
     pw_int = [0.0] * nout
     pw_abs = 0.0
     for p, w in zip(pw_pts, pw_w):
         fv = f.comps(tuple(p))
-        for k in range(nout):
-            pw_int[k] += float(w) * fv[k]
-            pw_abs += abs(float(w) * fv[k])
+        for q in range(nout):
+            pw_int[q] += float(w) * fv[q]
+            pw_abs += abs(float(w) * fv[q])
     pw = [[tuple(_f(x) for x in p), _f(w)] for p, w in zip(pw_pts, pw_w)] if st['want_pw'] else None
     try:
         sc.check_combi_scheme()
         selfcheck = None
     except BaseException as e:
         selfcheck = type(e).__name__
-    return dict(scheme=sch, comps=comps, vals=vals, integral=[_f(x) for x in np.atleast_1d(result)], nodal=nodal, nodal_all=nodal_all,
+    # axis (c): overwrite everything the calls returned, then ask again - nothing the object keeps may have changed
+    overwritten = 0
+    for x in returned:
+        try:
+            if isinstance(x, np.ndarray) and x.size and x.flags.writeable:
+                x[...] = SENTINEL if x.dtype.kind == 'f' else -7
+                overwritten += 1
+            elif isinstance(x, list) and x:
+                for q in range(len(x)):
+                    x[q] = tuple([SENTINEL] * d)
+                overwritten += 1
+        except (TypeError, ValueError):
+            pass
+    alias = []
+    vals2 = [[_f(x) for x in v] for v in sc(req)]
+    if vals2 != vals:
+        alias.append('interpolated values after the returned arrays were overwritten')
+    for g, comp in list(zip(scheme, comps))[:3]:
+        p2, w2 = sc.get_points_and_weights_component_grid(g.levelvector)
+        if [tuple(_f(x) for x in p) for p in p2] != comp[2] or [_f(x) for x in w2] != comp[3] or [int(x) for x in grid.levelToNumPoints(g.levelvector)] != comp[0]:
+            alias.append('component grid %s after the returned arrays were overwritten' % [int(x) for x in g.levelvector])
+    p2, w2 = sc.get_points_and_weights()
+    if len(p2) != pw_len[0] or (pw is not None and [[tuple(_f(x) for x in p), _f(w)] for p, w in zip(p2, w2)] != pw):
+        alias.append('get_points_and_weights after the returned arrays were overwritten')
+    if [_f(x) for x in np.atleast_1d(sc.operation.get_result())] != integral:
+        alias.append('operation.get_result after the returned result was overwritten')
+    if [[[int(x) for x in g.levelvector], _f(g.coefficient)] for g in sc.scheme] != sch:
+        alias.append('scheme after the returned arrays were overwritten')
+    return dict(scheme=sch, comps=comps, vals=vals, integral=integral, nodal=nodal, nodal_all=nodal_all,
                 gridvals=gridvals, pw_integral=pw_int, pw_abs=pw_abs, pw_len=pw_len, pw=pw, total_points=total_points, selfcheck=selfcheck, attrs=attrs,
-                err=None if err is None else _f(err))
+                err=None if err is None else _f(err), extra=extra, vals_fresh=vals_fresh, alias=alias, overwritten=overwritten, observers=observers)
 
 
 # --------------------------------------------------------------------------------------------------------------- oracle
@@ -395,6 +589,12 @@ def oracle(c, st, r):
     o = c['objs'][st['obj']]
     d = c['d']
     nout = len(c['fss'])
+    S = fscale(c)            # magnitude of the function values: every comparison is relative to it (no absolute thresholds)
+    if r.get('extra'):
+        npnts, num, pts, w = r['extra']
+        if num != len(pts) or len(pts) != len(w) or len(set(pts)) != len(pts):
+            return 'numpoints', 'grid of level vector %s (not in the scheme) announces %d points, returns %d points and %d weights' % (
+                st['extra_lv'], num, len(pts), len(w))
     # the reported number of points of each component grid matches the points it returns; points and weights aligned
     coef = {}
     for (lv, cf), comp in zip(r['scheme'], r['comps']):
@@ -425,9 +625,13 @@ def oracle(c, st, r):
     # nodal exactness: an arbitrary function is reproduced at every point of the sparse grid
     for p, iv, fv in r['nodal']:
         for k in range(nout):
-            if not closef(iv[k], fv[k]):
+            if not closef(iv[k], fv[k], scale=S):
                 return 'nodal', 'combined interpolant (output %d) at sparse grid point %s is %r, function value %r' % (k, list(p), iv[k], fv[k])
-    if r['gridvals'] and any(not closef(x, y) for xs, ys in zip(*r['gridvals']) for x, y in zip(xs, ys)):
+    if r.get('vals_fresh') is not None and r['vals_fresh'] != r['vals']:
+        return 'object-reuse', 'the interpolated values for the points object handed over (%s%s) differ from those for an equal fresh copy: %r vs %r' % (
+            st.get('pts_form'), ', same object as in the previous request' if st.get('pts_same') else '', r['vals'][:3], r['vals_fresh'][:3])
+    if r['gridvals'] and (len(r['gridvals'][0]) != len(r['gridvals'][1]) or any(
+            not closef(x, y, scale=S) for xs, ys in zip(*r['gridvals']) for x, y in zip(xs, ys))):
         return 'gridvals', 'interpolate_grid differs from point-wise interpolation'
     # the point/weight list of the whole combination carries the combined quadrature
     if r['pw_len'][0] != r['pw_len'][1]:
@@ -438,7 +642,7 @@ def oracle(c, st, r):
     if c.get('ref') and r['err'] is not None:
         ref = ref_solution(c)
         want_err = math.sqrt(sum((r['integral'][k] - ref[k]) ** 2 for k in range(nout)))
-        if not closef(r['err'], want_err):
+        if not closef(r['err'], want_err, scale=0.0):
             return 'ref-error', 'perform_operation reports the error %r, |result - reference|_2 = %r' % (r['err'], want_err)
     if c.get('ref') and r['err'] is None:
         return 'ref-error', 'perform_operation reports no error although a reference solution was given'
@@ -451,13 +655,13 @@ def oracle(c, st, r):
         bnd = any(i[q] in (0, 2 ** j[q]) for q in range(d))
         hierarchical = all((i[q] % 2 == 1) or j[q] <= st['lmin'] for q in range(d))
         if hierarchical and in_index_set(st, d, j) and (o['boundary'] or not bnd):
-            want_i = float(hat_integral(o, fs))
+            want_i = S * float(hat_integral(o, fs))
             if not closef(r['integral'][k], want_i, scale=0.0):
                 return 'hier-integral', 'hierarchical hat (level %s index %s) inside the index set integrated to %r, exact %r' % (j, i, r['integral'][k], want_i)
-            f = f or make_function(c['fss'], o['a'], o['b'])
+            f = f or make_function(c['fss'], o['a'], o['b'], S)
             for p, v in zip(st['pts'], r['vals']):
                 fv = f.comps(tuple(float(x) for x in p))[k]
-                if not closef(v[k], fv):
+                if not closef(v[k], fv, scale=S):
                     return 'hier-interp', 'hierarchical hat inside the index set not reproduced at %s: %r vs %r' % ([str(x) for x in p], v[k], fv)
     return None
 
@@ -475,12 +679,13 @@ def close(x, y, scale=1):
     if isinstance(x, float) and isinstance(y, float):
         return abs(x - y) <= TOLF * (abs(x) + abs(y) + scale)
     x, y = Fr(x), Fr(y)
-    return abs(x - y) <= TOL * (abs(x) + abs(y) + scale)
+    return abs(x - y) <= TOL * (abs(x) + abs(y) + Fr(scale))
 
 
 def compare(c, st, r, m):
     """model vs implementation; returns list of differing observables"""
     diffs = []
+    S = fscale(c)
     flag, msch, mcomps, mvals, mints, mtotal, mpw = m
     if sorted([[lv, float(cf)] for lv, cf in msch]) != sorted(r['scheme']):
         return ['scheme']
@@ -500,9 +705,9 @@ def compare(c, st, r, m):
                 diffs.append('component weights')
     if len(mvals) != len(c['fss']) or any(len(mv) != len(r['vals']) for mv in mvals):
         diffs.append('interpolated values')
-    elif any(not close(qf(x), v[k]) for k, mv in enumerate(mvals) for x, v in zip(mv, r['vals'])):
+    elif any(not close(qf(x) * S, v[k], S) for k, mv in enumerate(mvals) for x, v in zip(mv, r['vals'])):
         diffs.append('interpolated values')
-    if any(not close(qf(x), y) for x, y in zip(mints, r['integral'])) or len(mints) != len(r['integral']):
+    if any(not close(qf(x) * S, y, S) for x, y in zip(mints, r['integral'])) or len(mints) != len(r['integral']):
         diffs.append('integral')
     if mtotal != r['total_points']:
         diffs.append('total number of points')
@@ -543,6 +748,36 @@ CORPUS = [
 ]
 
 
+def confirm_and_report(chk, pending):
+    """every worker process runs many cases one after the other: a violation may be due to state an EARLIER case left behind in
+    the process (class-level caches ...). Re-run each violating history alone in a fresh process: only a history that fails on its
+    own is a replayable failing input; the others are reported too, marked as needing the process history."""
+    import json as _json
+    pending.sort(key=lambda v: len(_json.dumps(v[3], default=str)))
+    confirmed_sigs = set()
+    tries = {}
+    for check, kind, sig, hist, detail, k in pending:
+        sk = (kind, str(sorted(sig.items())))
+        alone = None
+        if sk not in confirmed_sigs and tries.get(sk, 0) < 3 and sum(tries.values()) < 30:
+            tries[sk] = tries.get(sk, 0) + 1
+            status, rr = run_impl(impl_run, [hist], limit=300)[0]
+            if kind == 'impl-exception':
+                alone = status != 'ok' or any(x.get('observer_exception') for x in rr)
+            elif k in ('mutated', 'alias'):
+                alone = status != 'ok' or bool(rr[-1].get(k))
+            else:
+                alone = status != 'ok' or (k < len(rr) and oracle(hist, hist['steps'][k], rr[k]) is not None)
+            if alone:
+                confirmed_sigs.add(sk)
+        if alone is False:
+            detail = dict(detail, standalone='does NOT fail when the history runs alone in a fresh process: state left behind by earlier '
+                                             'cases of the same worker process (class-level / module-level cache) is involved')
+            chk.violation(check, kind + '/process-state', sig, hist, detail, failing_input=False)
+        else:
+            chk.violation(check, kind, sig, hist, dict(detail, standalone='confirmed in a fresh process' if alone else 'not re-run'))
+
+
 def sig_of(c, k, clause=None):
     st = c['steps'][k]
     o = c['objs'][st['obj']]
@@ -574,9 +809,12 @@ def run(chk):
             continue
         st = cases[ci]['steps'][k]
         o = cases[ci]['objs'][st['obj']]
-        for key in rr[k]['attrs']:
+        for key in rr[k].get('attrs', {}):
             dim, lev = map(int, key.split(':'))
             areq.setdefault((o['boundary'], o['a'][dim], o['b'][dim], lev), None)
+        if rr[k].get('extra'):
+            for dim, lev in enumerate(st['extra_lv']):
+                areq.setdefault((o['boundary'], o['a'][dim], o['b'][dim], lev), None)
     akeys = list(areq)
     for key, mr in zip(akeys, run_model(2, [(2, [1 if bd else 0, a, b, lev]) for bd, a, b, lev in akeys], nproc=4)):
         areq[key] = mr
@@ -620,6 +858,23 @@ def run(chk):
                 pending.append(('corr:C02/run', 'impl-exception', {'exc': rr[0] if rr else status}, full, dict(impl=str(rr)), None))
             continue
         r = rr[k]
+        if r.get('observer_exception'):
+            pending.append(('corr:C02/observer', 'impl-exception', {'exc': r['observer_exception'].split(' ')[0], 'observer': True}, hist,
+                            dict(impl=r['observer_exception']), None))
+            continue
+        for key in ('magnitude of f=2^%d' % full.get('fscale', 0), 'box given as=%s' % (o.get('ab_form') or 'array'),
+                    'bound objects shared between two object triples=%s' % any(x.get('share_ab') for x in full['objs']),
+                    'evaluation points given as=%s' % st.get('pts_form', 'tuples'), 'same points object as previous request=%s' % bool(st.get('pts_same')),
+                    'observer calls between stop and observations=%d' % r.get('observers', 0),
+                    'probe of a level vector outside the scheme=%s' % bool(r.get('extra')), 'sibling-class object alive=%s' % bool(full.get('sibling'))):
+            chk.count(key)
+        chk.count('returned objects overwritten with a sentinel', r.get('overwritten', 0))
+        if r.get('mutated'):
+            pending.append(('oracle:arguments', 'argument-mutated', dict(sig_of(full, k), what=r['mutated'][0].split(' of ')[0]), hist,
+                            dict(why='the library modified objects it was given: %s' % r['mutated']), 'mutated'))
+        if r.get('alias'):
+            pending.append(('oracle:returned-objects', 'result-aliases-internal-state', dict(sig_of(full, k), what=r['alias'][0].split(' after ')[0]), hist,
+                            dict(why='after overwriting the arrays/lists the calls had returned with a sentinel, the object answers differently: %s' % r['alias']), 'alias'))
         npts = sum(len(comp[2]) for comp in r['comps'])
         chk.count('component-grid points per step: %s' % ('<64' if npts < 64 else '64-199' if npts < 200 else '200-1023' if npts < 1024 else '1024-2047' if npts < 2048 else '>=2048'))
         big = max([len(comp[2]) for comp in r['comps']] or [0])
@@ -653,14 +908,26 @@ def run(chk):
             # which boundary test does the code use?  the interpolated values must be those of one of the tolerant models
             def same(mv):
                 return (not sx.is_err(mv)) and not isinstance(mv, tuple) and len(mv) == len(full['fss']) and all(
-                    len(col) == len(r['vals']) and all(close(qf(x), v[q]) for x, v in zip(col, r['vals'])) for q, col in enumerate(mv))
+                    len(col) == len(r['vals']) and all(close(qf(x) * fscale(full), v[q], fscale(full)) for x, v in zip(col, r['vals'])) for q, col in enumerate(mv))
             m_np, m_dom = tolres[(ci, k)]
             s_np, s_dom = same(m_np), same(m_dom)
-            variant = ('both models (indistinguishable on this step)' if s_np and s_dom else 'np.isclose (current code)' if s_np
-                       else 'domain-relative / exact (repaired code)' if s_dom else 'neither')
+            variant = ('both models (indistinguishable on this step)' if s_np and s_dom else 'np.isclose (code before 5e45293)' if s_np
+                       else 'domain-relative / exact (code since 5e45293)' if s_dom else 'neither')
             chk.count('boundary test observed on rtol_collision steps: ' + variant)
             if variant == 'neither':
                 diffs.append('interpolated values (neither the np.isclose model nor the domain-relative model of the boundary test)')
+        if r.get('extra'):
+            mas = [areq.get((o['boundary'], o['a'][dim], o['b'][dim], lev)) for dim, lev in enumerate(st['extra_lv'])]
+            if any(ma is None or sx.is_err(ma) or isinstance(ma, tuple) for ma in mas):
+                diffs.append('grid of a level vector outside the scheme (model rejects)')
+            else:
+                npnts, num, epts, ew = r['extra']
+                mp = list(itertools.product(*[[qf(x) for x in ma[5]] for ma in mas]))
+                mw = [math.prod(ws) for ws in itertools.product(*[[qf(x) for x in ma[6]] for ma in mas])]
+                if npnts != [ma[0] for ma in mas] or sorted(mp) != sorted(epts):
+                    diffs.append('grid of a level vector outside the scheme: points')
+                elif any(not close(float(x[1]), y[1], 0) for x, y in zip(sorted(zip(mp, mw)), sorted(zip(epts, ew)))):
+                    diffs.append('grid of a level vector outside the scheme: weights')
         diffs = sorted(set(diffs))
         if diffs and (not why or any('neither the np.isclose' in x for x in diffs)):
             search.append((full, k))
@@ -674,31 +941,7 @@ def run(chk):
             samples.append(dict(d=d, history=[[s['obj'], s['lmin'], s['lmax']] for s in full['steps'][:k + 1]],
                                 objects=[dict(a=[str(x) for x in ob['a']], b=[str(x) for x in ob['b']], boundary=ob['boundary']) for ob in full['objs']],
                                 f=str(full['fss']), integral=str(r['integral']), sparse_grid_points=r['nodal_all'], scheme=str(r['scheme'])))
-    # every worker process runs many cases one after the other: a violation may be due to state an EARLIER case left behind in
-    # the process (class-level caches ...). Re-run each violating history alone in a fresh process: only a history that fails on its
-    # own is a replayable failing input; the others are reported too, marked as needing the process history.
-    import json as _json
-    pending.sort(key=lambda v: len(_json.dumps(v[3], default=str)))
-    confirmed_sigs = set()
-    tries = {}
-    for check, kind, sig, hist, detail, k in pending:
-        sk = (kind, str(sorted(sig.items())))
-        alone = None
-        if sk not in confirmed_sigs and tries.get(sk, 0) < 3 and sum(tries.values()) < 30:
-            tries[sk] = tries.get(sk, 0) + 1
-            status, rr = run_impl(impl_run, [hist], limit=300)[0]
-            if kind == 'impl-exception':
-                alone = status != 'ok'
-            else:
-                alone = status != 'ok' or (k < len(rr) and oracle(hist, hist['steps'][k], rr[k]) is not None)
-            if alone:
-                confirmed_sigs.add(sk)
-        if alone is False:
-            detail = dict(detail, standalone='does NOT fail when the history runs alone in a fresh process: state left behind by earlier '
-                                             'cases of the same worker process (class-level / module-level cache) is involved')
-            chk.violation(check, kind + '/process-state', sig, hist, detail, failing_input=False)
-        else:
-            chk.violation(check, kind, sig, hist, dict(detail, standalone='confirmed in a fresh process' if alone else 'not re-run'))
+    confirm_and_report(chk, pending)
     t4 = time.time()
     # failing-input search: for configurations where only the correspondence broke, look for a hierarchical hat function
     # (analytic interpolant/integral known) or a positive polynomial on the SAME history on which the implementation violates the property
@@ -713,7 +956,7 @@ def run(chk):
                 if t == 0:
                     fs = [0, [Fr(1)] * d, [Fr(3)] * d]
                 else:
-                    j = [rng.randrange(1, st['lmin'] + 1) if rng.random() < 0.5 else rng.randrange(1, max(st['lmax'], 1) + 1) for _ in range(d)]
+                    j = [rng.randrange(1, max(st['lmin'], 1) + 1) if rng.random() < 0.5 else rng.randrange(1, max(st['lmax'], 1) + 1) for _ in range(d)]
                     if not in_index_set(st, d, j):
                         j = [max(st['lmin'], 1)] * d
                     fs = [1, j, [rng.randrange(0, 2 ** (jd - 1)) * 2 + 1 for jd in j]]
@@ -721,13 +964,15 @@ def run(chk):
                 steps[-1] = dict(steps[-1], pts=gen_pts(rng, d, o['a'], o['b'], 12), no_cap=True)
                 extra.append((dict(full, fss=[fs], steps=steps), k))
         found = 0
+        pending2 = []
         for (c2, k), (status, rr) in zip(extra, run_impl(impl_run, [e[0] for e in extra], limit=300)):
             if status == 'ok':
                 why = oracle(c2, c2['steps'][k], rr[k])
                 if why:
                     found += 1
-                    chk.violation('oracle:std_combi', 'property-predicate', sig_of(c2, k, why[0]), c2,
-                                  dict(why=why[1], clause=why[0], found_by='failing-input search'))
+                    pending2.append(('oracle:std_combi', 'property-predicate', sig_of(c2, k, why[0]), c2,
+                                     dict(why=why[1], clause=why[0], found_by='failing-input search'), k))
+        confirm_and_report(chk, pending2)
         chk.extra['failing_input_search'] = dict(configs=len(search), cases_tried=len(extra), failing_inputs_found=found)
     _c02_gen.finish(chk, gen_info, gen_problem)
     chk.extra['phase_seconds'] = dict(coq=round(t1 - t0, 1), implementation=round(t2 - t1, 1), model=round(t3 - t2, 1),
@@ -742,7 +987,36 @@ def run(chk):
                      samples)
 
 
+LESSON_AXES = {
+    '(a) argument immutability': 'covered: a, b, reference_solution, evaluation points, grid coordinates and the caller\'s level-vector arrays are '
+                                 'snapshotted at hand-over and compared after every step; oracle kind argument-mutated',
+    '(b) argument object reuse': 'covered: the same bound objects for StandardCombi, TrapezoidalGrid and a second object triple; box as float array / '
+                                 'int array / list / view of a parent; points as tuples / C / Fortran / strided view / float32; the same points object in '
+                                 'consecutive requests; every request is repeated with an equal fresh copy (clause object-reuse)',
+    '(c) returned-object aliasing': 'covered: every array/list returned in a step (result, interpolated values, component points/weights/counts, '
+                                    'get_points_and_weights, interpolate_grid) is overwritten with a sentinel, then the object is asked again; oracle kind '
+                                    'result-aliases-internal-state',
+    '(d) magnitudes': 'covered: function values and reference scaled by 2^-60, 2^-20, 1, 2^10, 2^30; boxes at |a| = 100, 1000, 2^20 and tiny boxes; '
+                      'all comparisons relative to the scale of f',
+    '(e) public observer calls between steps': 'covered: 0-3 of get_total_num_points, check_combi_scheme, __call__, component-grid queries (also for '
+                                               'level vectors outside the scheme), interpolate_grid, get_points_and_weights, levelToNumPoints between '
+                                               'perform_operation and the observations; both observation orders. EXCLUDED: levelToNumPoints / '
+                                               'get_num_points_component_grid BEFORE the first setCurrentArea (fresh object or empty scheme) raise '
+                                               'AttributeError (level_to_num_points_1d reads the current area)',
+    '(f) options that change between calls': 'covered: every step of a history draws its own (lmin, lmax), points, point container, tensor-grid request, '
+                                             'level type, observers on ONE object; the dimension is fixed by the object (len(a))',
+    '(g) shared state across instances': 'covered: two object triples (other boundary flag / other box / shared bound objects) and an object of the '
+                                         'sibling class SimpsonGrid(1D: subclass of TrapezoidalGrid1D) alive and working in the same process; every '
+                                         'violating history (also those of the failing-input search) is re-run alone in a fresh process',
+    '(h) sizes beyond internal thresholds': 'covered: 1D grids with 2049 / 4097 / 8193 points, 2D 33x65, 1031 and 205 evaluation points, tensor requests '
+                                            'up to 1296 points',
+    '(i) value sets beyond the nice ones': 'covered: d = 1; lmin 0..12; level vectors outside the scheme (anisotropic, level 0, up to 7) as caller arrays; '
+                                           'unsorted evaluation points and tensor-grid coordinates with duplicates; numpy.int64 levels. Not applicable: '
+                                           'labels / CPython set order (the scheme is a list; the only set is in check_combi_scheme, which is observed)',
+}
+
 ENVELOPE = {
+    'lessons of the blind seeding rounds': LESSON_AXES,
     'quantified axes (property text + anchored code)': {
         'dimension': '1..5 generated (5 only with small levels)',
         'lmin, lmax': '1<=lmin<=lmax (property); also lmin=0 and lmax<lmin (empty scheme) - outside the property, run and agree with the model',
